@@ -488,6 +488,9 @@ class _AllOptions(Evaluatable[Options]):
         _ = self.evaluate(options)
 
     def keys(self, options: Options) -> Set[str]:
+        # Like every other keys(): fail when a key that is required (here: referenced
+        # by a templated value somewhere in the options) is missing
+        _ = self.evaluate(options)
         return set(options.keys())
 
     def explain(self, options: Optional[Options] = None) -> Set[str]:
